@@ -364,6 +364,8 @@ def check(prop, tier):
         shards = ln["shards"][ti]
         for cfg in ln["configs"]:
             for s in range(shards):
+                if ln.get("one_shard") and s != seed % shards:
+                    continue   # mixed-order jobs (plan._add_mixed): one shard of the usual sharding, chosen by the seed
                 jobs.append(Job(prop, ln, cfg, s, shards, tier, seed, rundir))
     if only_v or only_c:
         jobs = [j for j in jobs if (not only_v or j.variant in only_v) and (not only_c or j.config in only_c)]
